@@ -22,9 +22,11 @@ extern int g_new_gt_limit;
 /* walk-back of the testnet rule: first block, from the parent backwards, that is the root, or starts a period, or is not at the limit */
 #define STOP(i) ((i) + 1 >= n || (h0 - (int32_t)(i)) % INTERVAL == 0 || bits[i] != LIMIT)
 #define WALK (STOP(0) ? bits[0] : STOP(1) ? bits[1] : STOP(2) ? bits[2] : STOP(3) ? bits[3] : STOP(4) ? bits[4] : bits[5])
-/* clamp of the actual timespan to [T/4, 4T] (32-bit unsigned arithmetic, as in Bitcoin) */
-#define ACTUAL (ts[0] - ts[INTERVAL - 1])
-#define CLAMPED (ACTUAL < TIMESPAN / 4 ? TIMESPAN / 4 : ACTUAL > TIMESPAN * 4 ? TIMESPAN * 4 : ACTUAL)
+/* clamp of the actual timespan to [T/4, 4T] as Bitcoin defines it (pow.cpp: int64_t nActualTimespan = pindexLast->GetBlockTime() -
+ * nFirstBlockTime): the difference of the two block times is a SIGNED quantity, so a period whose last block carries an earlier time
+ * than its first one clamps to T/4, not to 4T */
+#define ACTUAL ((int64_t)ts[0] - (int64_t)ts[INTERVAL - 1])
+#define CLAMPED (ACTUAL < (int64_t)(TIMESPAN / 4) ? TIMESPAN / 4 : ACTUAL > (int64_t)TIMESPAN * 4 ? TIMESPAN * 4 : (uint32_t)ACTUAL)
 uint32_t w_nextwork_c(const uint32_t* ts, const uint32_t* bits, uint32_t n, int32_t h0, uint32_t block_ts, const uint32_t* cfg, uint32_t* out)
 __CPROVER_requires(__CPROVER_is_fresh(ts, NCH * 4) && __CPROVER_is_fresh(bits, NCH * 4) && __CPROVER_is_fresh(cfg, 7 * 4) && __CPROVER_is_fresh(out, 3 * 4))
 __CPROVER_requires(n >= 1 && n <= NCH && h0 >= 0 && h0 <= 1000000 && (uint32_t)h0 + 1 >= n)
